@@ -14,6 +14,7 @@ import (
 
 	"github.com/evolbioinfo/goalign/align"
 
+	"verif/lib/conc"
 	"verif/lib/gen"
 	"verif/lib/h"
 	"verif/lib/mon"
@@ -792,7 +793,7 @@ func runRand(c *mon.Case) {
 			a.MaxCharStats(o.IgnGaps, o.IgnNs)
 		case 1:
 			a.RemoveMajorityCharacterSites(2, o.Ends, o.IgnGaps, o.IgnNs) // cutoff outside [0,1] counts as 0 ...
-			a = h.MkAlign(rows, alphaOf(aa))                               // ... which may remove columns: start again
+			a = h.MkAlign(rows, alphaOf(aa))                              // ... which may remove columns: start again
 			a.MaxCharStats(o.IgnGaps, o.IgnNs)
 			a.Consensus(o.IgnGaps, o.IgnNs)
 		default:
@@ -1169,6 +1170,7 @@ func main() {
 	mon.Floor("cli-multi:ok", 40)
 	mon.Floor("query-edit-clean:edited cells", 1000)
 	mon.Floor("query-edit-clean:rows removed", 1000)
+	mon.Floor("concurrent:calls", 500)
 	mon.Main("C12", []mon.Sub{
 		{Name: "witness", Quick: len(witnesses) + nEmptyWitness, Thorough: len(witnesses) + nEmptyWitness, Run: runWitness},
 		{Name: "exh-sites", Quick: nExhSites, Thorough: nExhSites, Run: runExhSites},
@@ -1178,6 +1180,7 @@ func main() {
 		{Name: "rand", Quick: 300000, Thorough: 8000000, Run: runRand},
 		{Name: "shared", Quick: 20000, Thorough: 400000, Run: runShared},
 		{Name: "deep", Quick: 16, Thorough: 160, Run: runDeep},
+		{Name: "concurrent", Quick: 64, Thorough: 1200, Race: true, Run: func(c *mon.Case) { conc.Run(c, "clean") }},
 		{Name: "cli", Quick: 320, Thorough: 3000, Serial: true, Run: runCli},
 		{Name: "cli-multi", Quick: 90, Thorough: 900, Run: runCliMulti},
 	})
